@@ -79,8 +79,37 @@ class ZONEINFO(TZProvider):
 
     def _create_timezone(self, tz: cal.Timezone) -> tzinfo:
         """Create a timezone and maybe fail"""
+        tz = self._with_until_in_local_time(tz)
         file = StringIO(tz.to_ical().decode("UTF-8", "replace"))
         return tzical(file).get()
+
+    @staticmethod
+    def _with_until_in_local_time(tz: cal.Timezone) -> cal.Timezone:
+        """Return the timezone with the UNTIL of the RRULEs in local time.
+
+        RFC 5545 requires UNTIL in UTC but dateutil's tzical compares it
+        to the local time of the onsets (local to TZOFFSETFROM).
+        The argument is not modified.
+        """
+        result = tz
+        for index, sub in enumerate(tz.subcomponents):
+            rrule = sub.get("RRULE")
+            offset = sub.get("TZOFFSETFROM")
+            if not isinstance(rrule, dict) or offset is None:
+                continue
+            until = rrule.get("UNTIL")
+            if not until or not all(
+                isinstance(dt, datetime) and dt.utcoffset() is not None
+                for dt in until
+            ):
+                continue
+            if result is tz:
+                result = copy.deepcopy(tz)
+            result.subcomponents[index]["RRULE"]["UNTIL"] = [
+                (dt - dt.utcoffset() + offset.td).replace(tzinfo=None)
+                for dt in until
+            ]
+        return result
 
     def uses_pytz(self) -> bool:
         """Whether we use pytz."""
